@@ -109,11 +109,9 @@ fn cast_binary_op_q(
             if left.can_cast_to(&TypeQualifier::PercentInteger)
                 && right.can_cast_to(&TypeQualifier::PercentInteger)
             {
-                if op == Operator::Modulo
-                    && (left != TypeQualifier::PercentInteger
-                        || right != TypeQualifier::PercentInteger)
+                if left != TypeQualifier::PercentInteger || right != TypeQualifier::PercentInteger
                 {
-                    // the remainder of operands wider than INTEGER may need a LONG
+                    // operands wider than INTEGER work on (and may need) a LONG
                     Some(TypeQualifier::AmpersandLong)
                 } else {
                     Some(TypeQualifier::PercentInteger)
